@@ -10,12 +10,15 @@ THEOREMS = {
     "C03": ("TrVerif.Props.NonVacuity", ["Tr.C07_scan_start", "Tr.C03_optimal", "Tr.forwardSingle_optimal", "Tr.FwdDomain_dataset", "Tr.fwdStep1_FCβ", "Tr.fwdScanList1_FCβ", "Tr.bestEgress_le", "Tr.bestEgress_sound",
                                          "Tr.reach_reverse", "Tr.singleReverse_gen", "Tr.Reach.usable", "Tr.journeyOK_arrival", "Tr.fwdScanList_inv", "Tr.C01", "Tr.C02_times", "Tr.C02_arrival",
                                          "Tr.C03_attained", "Tr.journeyOK_admFwd", "Tr.calculateSingleWith_emits_allowed",
+                                         "Tr.C03_answer", "Tr.calculateSingle_no_exception", "Tr.optimizeJourney_terminates", "Tr.reconLoop_terminates", "Tr.reverseJourney_no_exception", "Tr.betweenOK_dataset",
                                          "Tr.nv_hypotheses", "Tr.nv_hypotheses_complete", "Tr.nv_admissible_forward", "Tr.nv_results"]),
     "C04": ("TrVerif.Props.NonVacuity", ["Tr.C07_scan_start", "Tr.C04_optimal", "Tr.singleReverse_optimal", "Tr.revStep1_RCθ", "Tr.revScanList1_RCθ", "Tr.bestAccess_ge", "Tr.init_RCθ",
                                          "Tr.revIndex_spec", "Tr.C01", "Tr.C02_times", "Tr.C02_arrival", "Tr.C04_attained", "Tr.journeyOK_admRev", "Tr.calculateSingleWith_emits_allowed",
-                                         "Tr.nv_hypotheses", "Tr.nv_hypotheses_reverse", "Tr.nv_admissible", "Tr.nv_results"]),
+                                         "Tr.C04_answer", "Tr.calculateSingle_no_exception", "Tr.optimizeJourney_terminates", "Tr.reconLoop_terminates", "Tr.reverseJourney_no_exception", "Tr.betweenOK_dataset",
+                                         "Tr.nv_hypotheses", "Tr.nv_hypotheses_complete", "Tr.nv_hypotheses_reverse", "Tr.nv_admissible", "Tr.nv_results"]),
     "C05": ("TrVerif.Props.NonVacuity", ["Tr.C07_scan_start", "Tr.C03_optimal", "Tr.C05_attained", "Tr.forwardSingle_optimal", "Tr.rreach_usable", "Tr.RReach.arrT_mono", "Tr.singleReverse_gen",
                                          "Tr.journeyOK_exact", "Tr.journeyOK_admRev", "Tr.calculateSingleWith_emits_allowed", "Tr.FwdDomain_dataset",
+                                         "Tr.C03_answer", "Tr.calculateSingle_no_exception", "Tr.optimizeJourney_terminates", "Tr.reconLoop_terminates",
                                          "Tr.nv_hypotheses", "Tr.nv_hypotheses_complete", "Tr.nv_admissible_forward", "Tr.nv_results"]),
     "C06": ("TrVerif.Props.C06", ["Tr.C06_totals", "Tr.C06_route"]),
     "C07": ("TrVerif.Props.C07All", ["Tr.C07_scan_start", "Tr.C07_route_no_service_to_destination", "Tr.revScan_count_zero", "Tr.revIndex_spec", "Tr.C07_route_strings", "Tr.C07_accessibility_strings", "Tr.C07_enum_order", "Tr.C07_access",
@@ -72,31 +75,34 @@ _reg("C02", "PROOF (all clauses, over the model): Tr.C02_partial - every ridden 
      "departure + access walk, is within max_first_waiting_time unless the cap is below the minimum waiting time in force (documented reading, DESIGN 0.5). Carried through the reverse-scan "
      "invariant, the reconstruction, the four clean-up rewrites and the emission. " + _M + "; " + _O + " (check_limits).",
      "Lean 4 theorems (invariant + refinement chain) + differential correspondence + executable oracle")
-_reg("C03", "PROOF (over the model, on the property's own domain; one outcome left open): Tr.C03_optimal - for every well-formed dataset with positive hop times (lines of the `transferable` mode "
+_reg("C03", "PROOF (full, over the model, on the property's own domain): Tr.C03_answer / Tr.C03_optimal - for every well-formed dataset with positive hop times (lines of the `transferable` mode "
      "allowed), scenario and departure-time query with the first-waiting cap disabled: (1) a returned route arrives no later than ANY admissible journey (AdmFwd: a permitted boarding of an "
      "admitted trip that a traveller leaving the place at the requested time can reach - inductive Reach -, a permitted alighting of that trip at a stop the router offers, arrival = alighting + "
      "egress walk within max_travel_time); Tr.C03_attained - the returned route itself IS such an admissible journey and arrives exactly at the reported time (no hypothesis beyond well-formedness), so the reported arrival IS the minimum; (2) when an admissible journey exists the answer is never "
      "no_routing_found. (2) was FALSE on the code as found - the second pass could stop before the only acceptable first boarding; the failing input came out of this proof (fix a7932ab, corpus/). "
      "Proved by: completeness of the single forward scan up to an upper cut line (Tr.fwdStep1_FCβ), best-egress selection, forward soundness (a journey J* realises the chosen time), the journey "
-     "reversal Tr.reach_reverse (J* is an admissible journey of the second pass, all its trips flagged usable), and the general single reverse pass Tr.singleReverse_gen. NOT proved: that the "
-     "model's fuel-bounded reconstruction / clean-up never end in its `exception` outcome on well-formed data. " + _M + "; the brute-force reference solver is still run on every answer.",
+     "reversal Tr.reach_reverse (J* is an admissible journey of the second pass, all its trips flagged usable), and the general single reverse pass Tr.singleReverse_gen. The third outcome of "
+     "the model - `exception`: a reconstruction or clean-up loop that does not end, an out-of-range map::at, an hour index read out of bounds - is excluded for EVERY route query by "
+     "Tr.calculateSingle_no_exception (stop numbers are stops of the data; the chain of stored steps visits stops with strictly increasing labels; every continuing clean-up iteration shortens "
+     "the journey or ignores a new stop, and its look-ups cannot fail - Tr.reconLoop_terminates, Tr.optimizeJourney_terminates), so with an admissible journey the calculation RETURNS a route (Tr.C03_answer). " + _M + "; the brute-force reference solver is still run on every answer.",
      "Lean 4 theorems (forward + reverse completeness invariants, journey reversal, selection lemmas; attainment by the returned journey) + differential correspondence + reference solver")
-_reg("C05", "PROOF (over the model, on the domain of C03; one outcome left open): third clause of Tr.C03_optimal - for every well-formed dataset with positive hop times, scenario and departure-time "
+_reg("C05", "PROOF (full, over the model, on the domain of C03): third clause of Tr.C03_optimal / Tr.C03_answer - for every well-formed dataset with positive hop times, scenario and departure-time "
      "query with the first-waiting cap disabled, when an admissible forward journey exists: NO admissible journey of the reverse kind that meets the REPORTED arrival time (AdmRev with the "
      "context's arrival set to r.arrivalTime: access entry, permitted boarding of an admitted trip, permitted alighting from which the place is reached by the reported arrival - inductive "
      "RReach) and leaves at or after the requested time leaves later than the reported departure; Tr.C05_attained - the returned route IS such a journey, leaving at the reported departure "
      "(>= the requested time) and meeting its own reported arrival (no hypothesis beyond well-formedness and a duplicate-free egress list). Together: the reported departure is the LATEST "
      "one that still meets the reported arrival. Proved by carrying every such journey into the second pass (Tr.rreach_usable: all its trips were flagged usable by the forward pass, "
-     "Tr.RReach.arrT_mono) and the general single reverse pass Tr.singleReverse_gen. NOT proved: the `exception` outcome of the fuel-bounded reconstruction / clean-up is not excluded; "
-     "queries with an active first-waiting cap are outside the theorem (checked by the reference solver only). " + _M + "; the brute-force backward reference solver from the reported arrival is still run on every answer.",
+     "Tr.RReach.arrT_mono) and the general single reverse pass Tr.singleReverse_gen; the model's `exception` outcome is excluded by Tr.calculateSingle_no_exception (a route IS returned: Tr.C03_answer). "
+     "Outside the theorem: queries with an active first-waiting cap (checked by the reference solver only). " + _M + "; the brute-force backward reference solver from the reported arrival is still run on every answer.",
      "Lean 4 theorems (second-pass completeness for the reported arrival, usable-flag transfer, attainment by the returned journey) + differential correspondence + reference solver")
-_reg("C04", "PROOF (over the model, on the property's own domain; one outcome left open): Tr.C04_optimal - for every well-formed dataset with positive hop times (lines of the `transferable` mode "
+_reg("C04", "PROOF (full, over the model, on the property's own domain): Tr.C04_answer / Tr.C04_optimal - for every well-formed dataset with positive hop times (lines of the `transferable` mode "
      "allowed: the property's 'one minimum waiting time' restriction is not needed after fix a7932ab), scenario and arrival-time query: (1) a returned route departs no earlier than ANY admissible journey (AdmRev: access entry, permitted boarding of an admitted trip "
      "at its stop, permitted alighting from which the place is still reached by the requested time - inductive RReach -, departure at or after 0:00, span within max_travel_time); Tr.C04_attained - the "
      "returned route itself IS such an admissible journey leaving at the reported departure time (with Tr.C02_times for 0:00 and the span), so the reported departure IS the maximum; (2) when an admissible journey exists the answer "
      "is never no_routing_found (any reason). Proved by a completeness invariant of the single reverse scan relative to a cut line taken from the final state (max_travel_time; once an access "
      "stop is reached, its departure minus the longest access walk - Tr.revStep1_RCθ), the keep rule, the best-access selection (Tr.bestAccess_ge) and the transparency of the reverse hour "
-     "index. NOT proved: that the model's fuel-bounded reconstruction / clean-up never end in its `exception` outcome on well-formed data (observed by the correspondence, never seen). The first "
+     "index. The model's third outcome `exception` (a loop of the reconstruction or clean-up that does not end, an out-of-range map::at, an hour index read out of bounds) is excluded for every "
+     "route query by Tr.calculateSingle_no_exception (Tr.reconLoop_terminates, Tr.optimizeJourney_terminates), so with an admissible journey a route IS returned (Tr.C04_answer). The first "
      "proof attempt needed uniform waiting at one step; the real code was wrong at the excluded point (a genuine C03 violation, repaired by a7932ab; inputs kept in corpus/). " + _M + "; the brute-force reference solver is still run on every answer.",
      "Lean 4 theorems (completeness invariant of the single reverse scan + best-access selection; attainment by the returned journey) + differential correspondence + reference solver")
 _reg("C06", "PROOF (full, over the model): Tr.C06_totals - the clock chain and every total/identity of the property hold for every journey value the emission pass "
